@@ -273,6 +273,29 @@ pub fn vf_u32_from_le_bytes(x: [u8; 4]) -> (r: u32)
     u32::from_le_bytes(x)
 }
 
+// native-endian conversions: the result depends on the target. The contracts are about EVERY target the crate
+// supports, so nothing but "one of the two byte orders" is known about them: code that uses them where the
+// specification fixes little-endian cannot prove its postcondition (seeded change C15-5).
+pub open spec fn sp_be32(b: Seq<u8>) -> u32 {
+    (b[3] as u32) | ((b[2] as u32) << 8) | ((b[1] as u32) << 16) | ((b[0] as u32) << 24)
+}
+
+#[verifier::external_body]
+pub fn vf_u32_from_ne_bytes(x: [u8; 4]) -> (r: u32)
+    ensures
+        r == sp_le32(x@) || r == sp_be32(x@),
+{
+    u32::from_ne_bytes(x)
+}
+
+#[verifier::external_body]
+pub fn vf_u32_from_be_bytes(x: [u8; 4]) -> (r: u32)
+    ensures
+        r == sp_be32(x@),
+{
+    u32::from_be_bytes(x)
+}
+
 pub trait VfToLe {
     spec fn vf_le_spec(&self) -> Seq<u8>;
 
